@@ -20,6 +20,9 @@ const GUARD_BYTE: u8 = 0xA5;
 const POISON: u8 = 0xDD;
 const QUARANTINE_MAX_BLOCK: usize = 1 << 16;
 const QUARANTINE_MAX_TOTAL: usize = 512 << 20;
+// quarantined blocks keep their table entry: bound their number so that long runs cannot fill the table
+const QUARANTINE_MAX_BLOCKS: usize = SLOTS / 4;
+static QUARANTINED_BLOCKS: AtomicUsize = AtomicUsize::new(0);
 
 #[derive(Clone, Copy)]
 struct Entry {
@@ -230,7 +233,8 @@ unsafe impl GlobalAlloc for Ledger {
         }
         let quarantine = e.tracked
             && e.size <= QUARANTINE_MAX_BLOCK
-            && QUARANTINED.load(Relaxed) < QUARANTINE_MAX_TOTAL;
+            && QUARANTINED.load(Relaxed) < QUARANTINE_MAX_TOTAL
+            && QUARANTINED_BLOCKS.load(Relaxed) < QUARANTINE_MAX_BLOCKS;
         if quarantine {
             TABLE[i].freed = true;
         } else {
@@ -251,6 +255,7 @@ unsafe impl GlobalAlloc for Ledger {
         if quarantine {
             std::ptr::write_bytes(p, POISON, e.size);
             QUARANTINED.fetch_add(e.size + GUARD, Relaxed);
+            QUARANTINED_BLOCKS.fetch_add(1, Relaxed);
         } else {
             System.dealloc(
                 p,
